@@ -392,7 +392,9 @@ public:
   template<class T>
   static std::vector<T> seq(T from, T to, T by)
   {
-    std::vector<T> v((size_t)((std::abs(from - to) + by / 100) / by) + 1);
+    // The number of steps is |to - from| / by rounded down; 1e-9 step absorbs the rounding of the
+    // quotient (0.3 / 0.1 = 2.9999999999999996) without ever stepping beyond 'to'.
+    std::vector<T> v((size_t)(static_cast<double>(std::abs(from - to)) / static_cast<double>(by) + 1e-9) + 1);
     T step = from < to ? by : -by;
     T val(from);
     for (auto& vi:v)
